@@ -340,7 +340,7 @@ def render_args(desc):
     return out
 
 
-def call_once(ctx, pat, mode):
+def call_once(ctx, pat, mode, attempt):
     """One constructor call for an argument pattern; returns an obs dict or raises."""
     from spox import Var
     from spox._scope import Scope
@@ -379,6 +379,7 @@ def call_once(ctx, pat, mode):
             val = given_value(acls, pname, default, ctx.opname, max(1, pat["varlen"]))
             kwargs[pname] = val
             given.append((pname, render_given(val, ctx.schema_attr_type.get(pname), pname, acls)))
+    attempt["args"], attempt["given"] = render_args(args_desc), given
     patched = {}
     if mode == "noinfer":
         for meth in ("infer_output_types", "propagate_values"):
@@ -462,9 +463,10 @@ def call_once(ctx, pat, mode):
 
 def observe(ctx, pat, stats):
     last = None
+    attempt = {"args": [], "given": []}
     for mode in ("untyped", "typed", "noinfer"):
         try:
-            o = call_once(ctx, pat, mode)
+            o = call_once(ctx, pat, mode, attempt)
             o["label"] = pat["label"]
             stats[mode] = stats.get(mode, 0) + 1
             return o
@@ -472,8 +474,8 @@ def observe(ctx, pat, stats):
             last = e
     stats["raised"] = stats.get("raised", 0) + 1
     return {"label": pat["label"], "raised": type(last).__name__, "classok": False, "mode": "raised",
-            "args": [], "given": [], "ret": [], "optype": "", "domain": "", "in": [], "out": [], "attr": [],
-            "error": str(last)[:300]}
+            "args": attempt["args"], "given": attempt["given"], "ret": [], "optype": "", "domain": "", "in": [], "out": [],
+            "attr": [], "error": f"{type(last).__name__}: {str(last)[:300]}"}
 
 
 def patterns(ctx, rng=None, n_random=0):
